@@ -109,6 +109,13 @@ def run(index, tier="quick", seed=0) -> Result:
         if not skel:
             res.bad("FMT-1", f"{name}:empty", where, f"io.{name} writes nothing")
             continue
+        # CNT-2 every element of the collection a loop ranges over is written: no data-dependent skip
+        if ex.skips:
+            ln, test, how = ex.skips[0]
+            res.bad("CNT-2", f"{name}:skip", f"{fn.file}:{ln}", f"io.{name} leaves out elements under `{test}` ({how}): the file no longer lists every "
+                    "vertex / face / facet of the polyhedron (e.g. small facets vanish under an absolute tolerance)")
+        else:
+            res.ok("CNT-2", name, nontrivial=False)
         inst = Instance()
         text = inst.render(skel)
         res.evaluations += len(text)
@@ -214,8 +221,16 @@ def run(index, tier="quick", seed=0) -> Result:
                     res.not_in_fragment.append("STL-1: cross product operands not recognised")
                 elif z <= 0:
                     probs.append("facet normal cross(...) points against the right-hand rule of the triangle's vertex order")
-            if not ex.deepcopied:
-                probs.append("shape is modified without a deepcopy")
+            # the shift to positive coordinates must not reach the caller's shape (effect analysis of C16 Q-4)
+            from .c16 import _check_query
+            from ..values import ObjRef, Val, TOP
+            tmp = Result("C16", "")
+            for cname in ("Polyhedron", "ConvexPolyhedron"):
+                c = index.cls(cname)
+                _check_query(tmp, index, c, f"io.to_stl[{cname}]", fn, None, set(), {"_vertices", "_faces", "_equations"},
+                             args={"shape": Val(kind="obj", obj=ObjRef(c, "self"), dim=TOP)}, rule_prefix="Q-4")
+            if tmp.findings:
+                probs.append("shape is modified without a deepcopy (" + tmp.findings[0].what[:120] + ")")
             if probs:
                 res.bad("STL-1", "to_stl:" + _fmt_key(probs[0]), where, "io.to_stl: " + "; ".join(probs))
             else:
